@@ -12,6 +12,7 @@ import (
 	"os"
 	"os/exec"
 	"path/filepath"
+	"runtime"
 	"sort"
 	"strconv"
 	"strings"
@@ -43,6 +44,7 @@ type Result struct {
 	Notes       []string       `json:"notes,omitempty"`
 	HarnessErr  string         `json:"harness_error,omitempty"`
 	Unstable    int            `json:"unstable,omitempty"`
+	MaxCaseMs   int            `json:"max_case_ms,omitempty"` // longest single evaluation (between two Progress calls)
 }
 
 func NewResult() *Result { return &Result{Exhaustive: true, Counters: map[string]int{}} }
@@ -73,6 +75,9 @@ func (r *Result) Merge(b *Result) {
 	r.Transitions += b.Transitions
 	r.Traces += b.Traces
 	r.Unstable += b.Unstable
+	if b.MaxCaseMs > r.MaxCaseMs {
+		r.MaxCaseMs = b.MaxCaseMs
+	}
 	for _, s := range b.Samples {
 		r.Sample(s)
 	}
@@ -177,10 +182,122 @@ func Scratch(tag string) string {
 
 var progressPath string
 
-// Progress records the case being evaluated so that a dying worker leaves a witness.
+var prog struct {
+	sync.Mutex
+	cur   string
+	curFn func() string
+	at    time.Time
+	n     int
+	maxMs int
+}
+
+// Progress records the case being evaluated so that a dying worker leaves a witness,
+// and so that the stall watchdog can tell a single evaluation that never returns from a long unit.
 func Progress(s string) {
+	now := time.Now()
+	prog.Lock()
+	if prog.n > 0 {
+		if d := int(now.Sub(prog.at) / time.Millisecond); d > prog.maxMs {
+			prog.maxMs = d
+		}
+	}
+	prog.cur, prog.curFn, prog.at = s, nil, now
+	prog.n++
+	prog.Unlock()
 	if progressPath != "" {
 		os.WriteFile(progressPath, []byte(s), 0644)
+	}
+}
+
+// Beat is Progress without the witness file, for engines that run thousands of evaluations per second.
+// The description is only built if the evaluation stalls.
+func Beat(desc func() string) {
+	now := time.Now()
+	prog.Lock()
+	if prog.n > 0 {
+		if d := int(now.Sub(prog.at) / time.Millisecond); d > prog.maxMs {
+			prog.maxMs = d
+		}
+	}
+	prog.curFn, prog.at = desc, now
+	prog.n++
+	prog.Unlock()
+}
+
+// Alive is the cheapest beat: something finished, the current case description stays.
+func Alive() {
+	now := time.Now()
+	prog.Lock()
+	if prog.n > 0 {
+		if d := int(now.Sub(prog.at) / time.Millisecond); d > prog.maxMs {
+			prog.maxMs = d
+		}
+		prog.at = now
+	}
+	prog.Unlock()
+}
+
+// stallLimit is how long ONE evaluation (the work between two Progress calls) may take before the worker
+// declares it hung. Evaluations take milliseconds to a few seconds; the limit is orders of magnitude above
+// the longest one observed on the unchanged tree (reported as max_case_ms in the evidence).
+func stallLimit() time.Duration {
+	if v, err := strconv.Atoi(os.Getenv("VERIF_STALL_S")); err == nil && v > 0 {
+		return time.Duration(v) * time.Second
+	}
+	return 75 * time.Second
+}
+
+// hungFrame returns the innermost kevo function of a goroutine that is running (not blocked) in the dump.
+func hungFrame(dump string) (fn string, stack string) {
+	for _, g := range strings.Split(dump, "\n\n") {
+		head, _, _ := strings.Cut(g, "\n")
+		if !strings.Contains(head, "[running]") && !strings.Contains(head, "[runnable]") {
+			continue
+		}
+		if strings.Contains(g, "fw.stallWatch") {
+			continue
+		}
+		for _, l := range strings.Split(g, "\n") {
+			if strings.HasPrefix(l, "github.com/KevoDB/kevo/pkg/") && !strings.Contains(l, "/zzverif/") && !strings.Contains(l, ".Verif") {
+				f := strings.TrimPrefix(l, "github.com/KevoDB/kevo/pkg/")
+				if i := strings.LastIndex(f, "("); i > 0 {
+					f = f[:i]
+				}
+				return f, g
+			}
+		}
+	}
+	return "", ""
+}
+
+func stallWatch(id, unit, outPath string) {
+	lim := stallLimit()
+	for {
+		time.Sleep(2 * time.Second)
+		prog.Lock()
+		n, cur, at := prog.n, prog.cur, prog.at
+		if prog.curFn != nil {
+			cur = strings.TrimSpace(cur + " " + prog.curFn())
+		}
+		prog.Unlock()
+		if n == 0 || time.Since(at) < lim {
+			continue
+		}
+		buf := make([]byte, 4<<20)
+		buf = buf[:runtime.Stack(buf, true)]
+		fn, stack := hungFrame(string(buf))
+		if fn == "" {
+			// nothing of kevo is running: blocked, not spinning; leave it to the unit's own deadline handling and the parent's watchdog
+			continue
+		}
+		res := NewResult()
+		res.Exhaustive = false
+		res.Caps = append(res.Caps, "unit "+unit+" stopped at an evaluation that did not return")
+		res.Violate(FP("hang", id, fn), fmt.Sprintf("an evaluation did not return within %ds and is still executing %s (livelock / unbounded loop): case %s", int(lim/time.Second), fn, cur), unit,
+			map[string]any{"unit": unit, "kind": "hang", "case": cur, "function": fn, "stack": tail(stack, 3000)})
+		b, _ := json.Marshal(res)
+		os.WriteFile(outPath, b, 0644)
+		os.Exit(0)
 	}
 }
 
@@ -215,6 +332,7 @@ func WorkerMain(id, tier, unit, outPath string, deadlineUnix int64, seed int) {
 	if deadlineUnix > 0 {
 		env.Deadline = time.Unix(deadlineUnix, 0)
 	}
+	go stallWatch(id, unit, outPath)
 	var res *Result
 	func() {
 		defer func() {
@@ -226,6 +344,14 @@ func WorkerMain(id, tier, unit, outPath string, deadlineUnix int64, seed int) {
 		}()
 		res = c.Run(unit, env)
 	}()
+	prog.Lock()
+	if prog.n > 0 {
+		if d := int(time.Since(prog.at) / time.Millisecond); d > prog.maxMs {
+			prog.maxMs = d
+		}
+	}
+	res.MaxCaseMs = prog.maxMs
+	prog.Unlock()
 	b, _ := json.Marshal(res)
 	if err := os.WriteFile(outPath, b, 0644); err != nil {
 		fmt.Fprintln(diag, "cannot write result:", err)
@@ -590,6 +716,10 @@ func writeEvidence(verif string, c *Check, tier string, seed int, r *Result, wal
 	}
 	if len(r.Notes) > 0 {
 		cov["notes"] = r.Notes
+	}
+	if r.MaxCaseMs > 0 {
+		cov["longest_single_evaluation_ms"] = r.MaxCaseMs
+		cov["stall_limit_s"] = int(stallLimit() / time.Second)
 	}
 	if r.Unstable > 0 {
 		cov["unstable_witnesses_not_reported"] = r.Unstable
